@@ -26,7 +26,7 @@ def setup_path():
 
 def to_native(v):
     import numpy as np
-    if isinstance(v, list) and len(v) == 2 and all(isinstance(x, int) for x in v) and not isinstance(v[0], bool):
+    if isinstance(v, list) and len(v) == 2 and all(isinstance(x, int) and not isinstance(x, bool) for x in v):
         return v[0] / v[1]
     if isinstance(v, dict) and "shape" in v and "cells" in v:
         a = np.zeros(v["shape"], dtype="float64")
@@ -82,6 +82,10 @@ def run_case(contract, inputs, instance=""):
         kwargs = contract.native(generic_native(inputs), instance)
     else:
         kwargs = generic_native(inputs)
+    names = inputs.get("__argnames__")
+    if names and not inputs.get("__native__") and contract.native is None:
+        kwargs = {k: v for k, v in kwargs.items() if k in names}
+    kwargs.pop("__argnames__", None)
     args_ns = contract.options.get("args_ns")
     a = NS(args_ns(copy.deepcopy(kwargs)) if args_ns else copy.deepcopy(kwargs))
     for req in contract.requires:
